@@ -28,6 +28,12 @@ def run(chk):
                        'tree.  2.0 grammar on the operator subset the installed parser supports.')
     chk.trust('spec/pattern_sem.py reader/printer as the pattern grammar', 'the installed stix2patterns ANTLR parser (exercised, never specified)')
     pats = PG.patterns(chk.tier)
+    # frame: parsing depends on the text and its options only (a memoised parse would hand out one mutable model to every caller)
+    from vf.callsites import purity_obligations
+    from vf.check import SRC_ROOT
+    for ob in purity_obligations(SRC_ROOT, ['stix2/pattern_visitor.py::create_pattern_object'], allow=()):
+        chk.lemmas.append(ob)
+        if ob.result != 'discharged': chk.violation('frame#create_pattern_object', 'frame obligation fails: ' + ob.clause, {'obligation': ob.clause}, no_input=True)
 
     def check(t):
         text = show(t)
@@ -62,3 +68,24 @@ def run(chk):
         except Exception as ex: return ('model#printed text parses', f'model text {mtext!r}: {type(ex).__name__}: {str(ex)[:80]}', {'pattern': text})
     chk.bounded('pattern text <-> object model', pats, check, classify=classify,
                 bound=f'{len(pats)} generated patterns: 11 operators x NOT x constant kinds on 2 paths, escape-heavy string constants, 4 path shapes, boolean/observation nesting to depth 3 from 3-6 leaves, all qualifiers; both grammars; text route and model-class route')
+
+    # ---- history: parse o print of a text is the same before and after the library (the equivalence normaliser rewrites models in place) or a caller has worked with models of that text
+    from stix2.equivalence.pattern import equivalent_patterns
+    texts = [show(t) for t in pats]
+    first = {}
+    for x in texts:
+        try: first[x] = str(create_pattern_object(x, version='2.1'))
+        except Exception: pass
+    for x in list(first)[::3]:
+        try:
+            equivalent_patterns(x, x); equivalent_patterns(x, texts[0])
+            m = create_pattern_object(x, version='2.1')
+            if hasattr(m, 'operands') and isinstance(m.operands, list): m.operands.append(m.operands[0])          # a caller extending its own model
+        except Exception: pass
+
+    def hist_check(x):
+        try: again = str(create_pattern_object(x, version='2.1'))
+        except Exception as ex: return ('history#parse still accepts the text', f'{x}: {type(ex).__name__} after equivalence checks on the same text', {'pattern': x})
+        if again != first[x]: return ('history#parse o print unchanged by earlier work on the same text', f'{x} printed as {first[x]} at first and as {again} after equivalence checks / model edits on the same text', {'pattern': x})
+    chk.bounded('history: parse o print before and after equivalence checks and model edits on the same text', list(first), hist_check, classify=lambda x: x,
+                bound='every generated pattern; every third one was normalised by equivalent_patterns and had its parsed model extended in between')
